@@ -365,6 +365,8 @@ has_eq!(
     KMeans<f64, L2Dist>,
     KMeans<f32, L2Dist>,
     KMeans<f64, L1Dist>,
+    KMeans<f64, linfa_nn::distance::LInfDist>,
+    KMeans<f64, linfa_nn::distance::LpDist<f64>>,
     GaussianMixtureModel<f64>,
     FittedLinearRegression<f64>,
     FittedLinearRegression<f32>,
@@ -504,6 +506,23 @@ pub fn predictor_builders() -> Vec<(&'static str, Builder)> {
             .fit(&ds)
             .map_err(es)?;
         Ok(sub1!("kmeans-l1-f64-plusplus", m, 2, true, usizec(), f64))
+    }));
+    // metrics for which shortcuts valid under L1 / L2 (norm bounds, squared comparisons) do not hold
+    v.push(("kmeans-linf-f64", |seed| {
+        let d = make_data(seed, 100, 3, false);
+        let m = KMeans::params_with(5, xrng!(3), linfa_nn::distance::LInfDist).max_n_iterations(20).fit(&DatasetBase::from(d.x.clone())).map_err(es)?;
+        Ok(sub1!("kmeans-linf-f64", m, 3, true, usizec(), f64, |m: &KMeans<f64, linfa_nn::distance::LInfDist>, x: &Array2<f64>| {
+            let ix1: Vec<Vec<f64>> = x.outer_iter().map(|r| { let l: usize = m.predict(&r); vec![l as f64] }).collect();
+            vec![("=predict-single-observation-form".to_string(), ix1)]
+        }))
+    }));
+    v.push(("kmeans-lp3-f64", |seed| {
+        let d = make_data(seed, 100, 3, false);
+        let m = KMeans::params_with(5, xrng!(3), linfa_nn::distance::LpDist(3.0)).max_n_iterations(20).fit(&DatasetBase::from(d.x.clone())).map_err(es)?;
+        Ok(sub1!("kmeans-lp3-f64", m, 3, true, usizec(), f64, |m: &KMeans<f64, linfa_nn::distance::LpDist<f64>>, x: &Array2<f64>| {
+            let ix1: Vec<Vec<f64>> = x.outer_iter().map(|r| { let l: usize = m.predict(&r); vec![l as f64] }).collect();
+            vec![("=predict-single-observation-form".to_string(), ix1)]
+        }))
     }));
     v.push(("kmeans-l2-f32", |seed| {
         let d = make_data(seed, 90, 3, true);
